@@ -272,6 +272,7 @@ func shrinkFO(sc *Scenario, yield func(c *Scenario) bool) {
 			mods := []func(o *FOOp) bool{
 				func(o *FOOp) bool { ok := o.BuildSleepNs != 0; o.BuildSleepNs = 0; return ok },
 				func(o *FOOp) bool { ok := o.BuildFail; o.BuildFail = false; return ok },
+				func(o *FOOp) bool { ok := o.BuildPanic; o.BuildPanic = false; return ok },
 				func(o *FOOp) bool { ok := o.HasCtxTTL; o.HasCtxTTL = false; o.CtxTTLNs = 0; return ok },
 				func(o *FOOp) bool { ok := o.SkipRead; o.SkipRead = false; return ok },
 				func(o *FOOp) bool { ok := o.Cancel != ""; o.Cancel = ""; return ok },
